@@ -487,7 +487,7 @@ class Mesh3D(MeshBase):
             name: A text string for the name of the STL file.
         """
         from ladybug_geometry.interop.stl import STL  # avoid circular import
-        stl_obj = STL(self.face_vertices, self.face_normals)
+        stl_obj = STL.from_mesh3d(self)  # triangulates quad faces
         return stl_obj.to_file(folder, name)
 
     def to_obj(self, folder, name, include_colors=True, include_normals=False,
